@@ -77,6 +77,11 @@ func Build(rule Rule) (WireFormat, error) {
 			return nil, err
 		}
 
+		// -A asks the kernel to add the rule at the head of the list.
+		if v.Type == PrependSyscallRuleType {
+			data.flags |= prependFilter
+		}
+
 	case *FileWatchRule:
 		if err = addFileWatch(data, v); err != nil {
 			return nil, err
@@ -112,6 +117,12 @@ func ToCommandLine(wf WireFormat, resolveIds bool) (rule string, err error) {
 	r := ruleData{}
 	if err = r.fromAuditRuleData(ar); err != nil {
 		return "", fmt.Errorf("failed to parse audit rule: %w", err)
+	}
+
+	addFlag := "-a"
+	if r.flags&prependFilter != 0 {
+		addFlag = "-A"
+		r.flags &^= prependFilter
 	}
 
 	list, err := r.getList()
@@ -166,7 +177,7 @@ func ToCommandLine(wf WireFormat, resolveIds bool) (rule string, err error) {
 	// Parse rule as syscall type
 
 	arguments := []string{
-		"-a",
+		addFlag,
 		fmt.Sprintf("%s,%s", act, list),
 	}
 
